@@ -32,6 +32,10 @@ type Case struct {
 	Sides map[string]bool `json:"sides,omitempty"`
 	// DupSets: slices written for sets carry a duplicate element.
 	DupSets bool `json:"dup_sets,omitempty"`
+	// SpareCap: every slice written into the translated value (at any level:
+	// inside maps, pointers, arrays, elements of slices of structs) has this
+	// many elements of spare capacity beyond its length, holding junk.
+	SpareCap int `json:"spare_cap,omitempty"`
 	// NamedCast: named scalar leaves are filled through the string-casting
 	// mangler (off by default: C16's known defect).
 	NamedCast bool `json:"named_cast,omitempty"`
@@ -483,6 +487,13 @@ func genCase(t *rapid.T, random bool) Case {
 		}
 	}
 	c.DupSets = rapid.Bool().Draw(t, "dup_sets")
+	// 0..3 uniformly from two fair bools (rapid's integers favour 0)
+	if rapid.Bool().Draw(t, "spare_cap_lo") {
+		c.SpareCap |= 1
+	}
+	if rapid.Bool().Draw(t, "spare_cap_hi") {
+		c.SpareCap |= 2
+	}
 	return c
 }
 
